@@ -345,7 +345,14 @@ def examples_of_api(api, pkg, specs, trace=()):
             continue
         for d in ns.data_types:
             try:
+                # reading the examples in another form first must not change them (the description is shared by all backends)
+                first = json.dumps({k: v.value for k, v in d.get_examples().items()}, sort_keys=True, default=repr)
+                d.get_examples(compact=True)
                 examples = d.get_examples()
+                again_ = json.dumps({k: v.value for k, v in examples.items()}, sort_keys=True, default=repr)
+                if first != again_:
+                    out_v.append(viol('examples-changed-by-reading', 'get_examples() of %s.%s differs after get_examples(compact=True) was called: %s vs %s' % (
+                        nsn, d.name, first[:200], again_[:200]), {'specs': specs, 'type': '%s.%s' % (nsn, d.name), 'trace': list(trace)}))
             except Exception as e:  # noqa
                 out_v.append(viol('get-examples-raised:%s' % type(e).__name__, 'get_examples() raised %r' % (e,), {'specs': specs}))
                 continue
